@@ -25,7 +25,9 @@ RULE = (
     "each service a PRNG-drawn (seed from Hypothesis) subset of methods is overridden in a subclass of the generated "
     "<Svc>Base with recording handlers, some of them raising GRPCError; calls go through the generated <Svc>Stub over "
     "grpclib.testing.ChannelFor on the controlled event loop (FIFO schedule, virtual clock: a hang shows up as "
-    "deadlock / virtual DEADLINE_EXCEEDED, never as a wall-clock timeout); request values and stream lengths 0..4 are "
+    "deadlock / virtual DEADLINE_EXCEEDED, never as a wall-clock timeout); server-streaming handlers are async "
+    "generators or plain functions returning an async-iterable object; bidirectional calls are either batch (all "
+    "requests, then all responses) or a ping-pong conversation (request k+1 is produced only after response k); request values and stream lengths 0..4 are "
     "PRNG-drawn; stub-level and call-level timeout / deadline / metadata are each None or set (all 2^3 x 2^3 "
     "combinations reachable). Oracle (echo-service model): exactly the same-named handler ran, once; received "
     "request(s) equal sent, in order; returned response(s) equal the handler's, in order; non-overridden -> "
@@ -112,18 +114,47 @@ def exercise(c: gen.Compiled, seed: int, n_calls: int):
             erroring = {py for py in sorted(overridden) if rng.random() < 0.2}
             log = []  # (py_name, received)
             plan = {}  # py_name -> responses to give for the current call
+            mode = {}  # py_name -> "batch" (read all requests, then answer) | "interleaved" (answer each request at once)
+            style = {m[1]: rng.choice(["generator", "generator", "aiter_object"]) for m in methods}
+
+            class Pager:
+                """An async-iterable object that is not an async generator (what a handler may legitimately return)."""
+
+                def __init__(self, agen):
+                    self._agen = agen
+
+                def __aiter__(self):
+                    return self
+
+                async def __anext__(self):
+                    return await self._agen.__anext__()
 
             def make_handler(py, card):
                 cs, ss = card.client_streaming, card.server_streaming
 
                 if ss:
-                    async def handler(self, request):
+                    async def gen_handler(self, request):
+                        if cs and mode.get(py) == "interleaved":
+                            got = []
+                            log.append((py, got))
+                            i = 0
+                            async for r in request:
+                                got.append(r)
+                                yield plan[py][i]
+                                i += 1
+                            return
                         got = [r async for r in request] if cs else request
                         log.append((py, got))
                         if py in erroring:
                             raise grpclib.GRPCError(Status.FAILED_PRECONDITION, f"boom-{py}")
                         for r in plan[py]:
                             yield r
+
+                    if style[py] == "aiter_object":
+                        def handler(self, request):  # plain function returning an async-iterable object
+                            return Pager(gen_handler(self, request))
+                    else:
+                        handler = gen_handler
                 else:
                     async def handler(self, request):
                         got = [r async for r in request] if cs else request
@@ -165,6 +196,10 @@ def exercise(c: gen.Compiled, seed: int, n_calls: int):
                     stub = Stub(proxy, **stub_opts)
                     n_req = rng.choice([0, 1, 1, 2, 4]) if cs else 1
                     n_rep = rng.choice([0, 1, 1, 2, 4]) if ss else 1
+                    pingpong = cs and ss and py in overridden and py not in erroring and rng.random() < 0.4
+                    if pingpong:
+                        n_req = n_rep = rng.choice([2, 3, 5])
+                    mode[py] = "interleaved" if pingpong else "batch"
                     reqs = [make_value(req_t) for _ in range(n_req)]
                     reps = [make_value(rep_t) for _ in range(n_rep)]
                     plan[py] = reps
@@ -183,8 +218,27 @@ def exercise(c: gen.Compiled, seed: int, n_calls: int):
                     kw = {k: v for k, v in call_opts.items() if v is not None or rng.random() < 0.5}
                     arg = (reqs if rng.random() < 0.5 else _aiter(reqs)) if cs else reqs[0]
                     got_reps, err = None, None
+                    if pingpong:
+                        # a conversation: request k+1 is only produced after response k has arrived
+                        turn = asyncio.Event()
+                        turn.set()
+
+                        async def conversation():
+                            for r in reqs:
+                                await turn.wait()
+                                turn.clear()
+                                yield r
+
+                        arg = conversation()
+                        stats["labels"].add("pingpong")
+                    stats["labels"].add(f"handler_style:{style[py]}" if ss else "handler_style:coroutine")
                     try:
-                        if ss:
+                        if ss and pingpong:
+                            got_reps = []
+                            async for r in fn(arg, **kw):
+                                got_reps.append(r)
+                                turn.set()
+                        elif ss:
                             got_reps = [r async for r in fn(arg, **kw)]
                         else:
                             got_reps = [await fn(arg, **kw)]
@@ -240,7 +294,7 @@ def exercise(c: gen.Compiled, seed: int, n_calls: int):
         return True
 
     try:
-        run_controlled(scenario, lambda n: 0, max_steps=2_000_000)
+        run_controlled(scenario, lambda n: 0, max_steps=2_000_000, max_virtual_time=100_000.0)
     except Deadlock:
         fails.append(("call_never_completes", "deadlock", "the caller is still waiting at quiescence (stream never ended?)"))
     except StepLimit:
